@@ -9,6 +9,10 @@ NAMES_POOL = {
     "hebrew": "אבגדהוזחטיכלמנסעפצקרשת ",
     "accented": "éèêëàâäôöûüçñßøåÆœ ",
     "wide": "😀🏠🔥💡🌡️𝔸𝕏🚿❄",
+    # text that is legal in a name but that a "tidy-up" would touch: decomposed letters (not NFC), compatibility characters,
+    # no-break and zero-width characters, bidirectional marks, a tab
+    "decomposed": "e\u0301a\u0308o\u0302n\u0303\u05d1\u05bc\u2126\u212b\u1100\u1161",
+    "unprintable": "a\u00a0b\u200fc\u200bd\te\u2028f\u00adg",
 }
 SPECIAL_IDS = ["ELEC7022", "ZM079055", "ZM079065", "ZM079049"]
 
